@@ -291,10 +291,20 @@ def execute(schedule) -> Result:
                 res.stats["fault:" + f] += 1
             if kind in ("transform", "mahalanobis", "score"):
                 X = mats[op["X"]]
+                # domain guard first: the exported filter run by hand must get through this data without raising and stay
+                # bounded (a nonlinear swarm model can overflow on bounded data; that is the filter's business, C04/C05/C09)
+                try:
+                    with contextlib.redirect_stdout(io.StringIO()), np.errstate(all="ignore"):
+                        want = by_hand_nis(est, d, X)
+                    if not np.all(np.isfinite(want)) or (want.size and float(np.max(np.abs(want))) > 1e12):
+                        raise FloatingPointError("NIS not finite / huge")
+                except Exception as e:  # noqa: BLE001
+                    res.stats["probe:filter_diverges_on_data"] += 1
+                    res.truncated = f"guard:filter_diverges_on_data:{type(e).__name__}"
+                    break
                 try:
                     with contextlib.redirect_stdout(io.StringIO()):
                         val = _read_op(est, kind, X, op.get("explain", False))
-                        want = by_hand_nis(est, d, X)
                 except AssertionError as e:
                     res.stats["probe:read_op_refused"] += 1  # covariance gate territory (C09), not judged here
                     res.truncated = f"sut_refused:{str(e)[:40]}"
